@@ -174,7 +174,16 @@ func ruleSibling(p *Program, r *Result) {
 					}
 				}
 			}
+			var cnts []ssa.Value
+			if cnt == nil {
+				// the comparison hoisted behind the switch: count and number of layouts are carried out of each case
+				// (`errCnt != layouts` after the switch); for this case, the values on its edges into the join
+				thr, cnts = hoistedThreshold(D, cb)
+			}
 			incOK := cnt != nil && countIncrementsUnderAs(cnt, calls)
+			if len(cnts) > 0 {
+				incOK = countIncrementsUnderAs(nil, calls, cnts...)
+			}
 			r.cond(thr == int64(len(want)) && incOK, "R-SIBLING", ck+":threshold", p.Pos(cb.Instrs[0].Pos()),
 				fmt.Sprintf("a mismatch is declared iff all %d decoders report the length-sum error (count incremented only on errors.As(err, *BadSecretErr) of each trial)", len(want)),
 				fmt.Sprintf("threshold %d vs %d decoders tried, or the count is not incremented exactly on each trial's BadSecretErr (%v)", thr, len(want), incOK))
@@ -365,7 +374,7 @@ func ruleSibling(p *Program, r *Result) {
 }
 
 // countIncrementsUnderAs: the counter phi chain is incremented by 1 exactly under errors.As(result of each trial).
-func countIncrementsUnderAs(cnt ssa.Value, trials []*ssa.Call) bool {
+func countIncrementsUnderAs(cnt ssa.Value, trials []*ssa.Call, more ...ssa.Value) bool {
 	used := map[*ssa.Call]bool{}
 	seen := map[ssa.Value]bool{}
 	okAll := true
@@ -420,7 +429,12 @@ func countIncrementsUnderAs(cnt ssa.Value, trials []*ssa.Call) bool {
 			okAll = false
 		}
 	}
-	walk(cnt)
+	if cnt != nil {
+		walk(cnt)
+	}
+	for _, m := range more {
+		walk(m)
+	}
 	return okAll && len(used) == len(trials)
 }
 
@@ -741,4 +755,64 @@ func fieldIsBodyOfParamPacket(v ssa.Value) bool {
 	}
 	_, isParam := base.(*ssa.Parameter)
 	return isParam && isPacketPtr(base.Type())
+}
+
+// hoistedThreshold: the detector compares two values merged behind the type switch, count ==/!= layouts, where the
+// unequal side answers 'no mismatch'. Returns, for the case starting at cb, the constant number of layouts and the
+// count value that flow in from that case.
+func hoistedThreshold(D *ssa.Function, cb *ssa.BasicBlock) (int64, []ssa.Value) {
+	for _, b := range D.Blocks {
+		iff, ok := b.Instrs[len(b.Instrs)-1].(*ssa.If)
+		if !ok {
+			continue
+		}
+		bo, ok := iff.Cond.(*ssa.BinOp)
+		if !ok || (bo.Op != token.EQL && bo.Op != token.NEQ) {
+			continue
+		}
+		px, okx := bo.X.(*ssa.Phi)
+		py, oky := bo.Y.(*ssa.Phi)
+		if !okx || !oky || px.Block() != py.Block() || !(px.Block() == b || px.Block().Dominates(b)) {
+			continue
+		}
+		// the unequal side answers (nil, nil)
+		ne := b.Succs[1]
+		if bo.Op == token.NEQ {
+			ne = b.Succs[0]
+		}
+		ret, ok := ne.Instrs[len(ne.Instrs)-1].(*ssa.Return)
+		if !ok || len(ret.Results) != 2 || !isNilConst(ret.Results[0]) || !isNilConst(ret.Results[1]) || len(ne.Instrs) > 2 {
+			continue
+		}
+		thr := int64(-1)
+		var cnts []ssa.Value
+		consistent := true
+		for i, pred := range px.Block().Preds {
+			if !(pred == cb || cb.Dominates(pred)) {
+				continue
+			}
+			cx, isCx := constInt(px.Edges[i])
+			cy, isCy := constInt(py.Edges[i])
+			var k int64
+			var v ssa.Value
+			switch {
+			case isCy && !isCx:
+				k, v = cy, px.Edges[i]
+			case isCx && !isCy:
+				k, v = cx, py.Edges[i]
+			default:
+				consistent = false
+				continue
+			}
+			if thr >= 0 && thr != k {
+				consistent = false
+			}
+			thr = k
+			cnts = append(cnts, v)
+		}
+		if consistent && len(cnts) > 0 {
+			return thr, cnts
+		}
+	}
+	return -1, nil
 }
